@@ -50,7 +50,7 @@ func C16(r *drv.Run) {
 	if !quick(r) {
 		nrand = 400000
 	}
-	r.Rule = "exhaustive: every byte 0x01..0x7f in every spelling it has (raw, backslash+char, named escape, \\xHH, \\xhh) in both quote styles, alone, embedded between two other bytes, and as every ordered pair of 22 special bytes (CR, LF, tab, blank, both quotes, backslash, x, hex digits, controls, punctuation) in every combination of spellings; malformed \\x followed by 0, 1 or 2 hex digits and EVERY two-character continuation over 0x01..0x7f (control bytes included) that is not a hex pair (must keep all following characters); every backslash+char spelling followed by raw hex digits (stays that character and the digits); seeded random ASCII strings (length 1..8) with a random spelling per byte. The harness composes the denoted bytes b and the spelling, so it knows both. Oracle: `find all <literal>` on b reports exactly [0,len b); on every one-byte substitution of b (neighbour values, case flip, 3 random bytes per position) it reports nothing of that span. Non-trivial = every distinct literal spelling verified on b and on its near misses."
+	r.Rule = "exhaustive: every byte 0x01..0x7f in every spelling it has (raw, backslash+char, named escape, \\xHH, \\xhh) in both quote styles, alone, embedded between two other bytes, and as every ordered pair of 22 special bytes (CR, LF, tab, blank, both quotes, backslash, x, hex digits, controls, punctuation) in every combination of spellings; malformed \\x followed by 0, 1 or 2 hex digits and EVERY two-character continuation over 0x01..0x7f (control bytes included) that is not a hex pair (must keep all following characters); every backslash+char spelling followed by raw hex digits (stays that character and the digits); seeded random ASCII strings (length 1..8) with a random spelling per byte; a third of all cases compiled right after near-duplicates of themselves (blank runs doubled or halved, letters in the other case) in the same process. The harness composes the denoted bytes b and the spelling, so it knows both. Oracle: `find all <literal>` on b reports exactly [0,len b); on every one-byte substitution of b (neighbour values, case flip, 3 random bytes per position) it reports nothing of that span. Non-trivial = every distinct literal spelling verified on b and on its near misses."
 	r.Assumptions = []string{"ASCII bytes 0x01..0x7f only, as the property says (the lexer writes \\x80..\\xff as two-byte runes)"}
 	var cases []c16Case
 	for _, q := range []byte{'\'', '"'} {
@@ -166,6 +166,24 @@ func C16(r *drv.Run) {
 			}
 		}
 		c := wire.Case{Op: "run", Src: []byte(src), Texts: texts, StepBudget: 100000}
+		if (uint64(i)+r.Seed)%3 == 2 {
+			// near-duplicates compiled first in the same process: the same literal with every run of raw blanks
+			// doubled, and with letters in the other case - different programs, whatever a compiler remembers
+			flip := []byte(cs.lit)
+			for k := range flip {
+				if (flip[k] >= 'a' && flip[k] <= 'z') || (flip[k] >= 'A' && flip[k] <= 'Z') {
+					flip[k] ^= 0x20
+				}
+			}
+			for _, sib := range []string{strings.ReplaceAll(cs.lit, " ", "  "), string(flip), strings.ReplaceAll(cs.lit, "  ", " ")} {
+				if sib != cs.lit {
+					c.Prelude = append(c.Prelude, []byte("find all "+sib))
+				}
+			}
+			if len(c.Prelude) > 0 {
+				r.Count("cases_after_compiling_a_near_duplicate", 1)
+			}
+		}
 		return &drv.Item{Case: c, Check: func(res *wire.Result) {
 			if crashOrGuard(r, res, &c, src, false) {
 				return
